@@ -48,7 +48,31 @@ STAGES["C12"] = [
          quick=(250, 1), thorough=(1500, 16), crash_is_violation=True, race_is_violation=True),
 ]
 
+STAGES["C09"] = [
+    dict(name="policy", pkg="ristretto", test="TestVf_C09_Policy", replay_test="TestVfReplay_C09",
+         quick=(20000, 1), thorough=(200000, 16), crash_is_violation=True),
+]
+
+def _sm(pid, quick, thorough):
+    return dict(name="cachesm", pkg="ristretto", test="TestVf_SM_" + pid, replay_test="TestVfReplay_SM",
+                quick=(quick, 1), thorough=(thorough, 16), crash_is_violation=True)
+
+STAGES["C06"] = [_sm("C06", 3000, 30000)]
+for _pid in ["C03", "C05", "C07", "C13", "C14", "C15", "C17"]:
+    STAGES[_pid] = [_sm(_pid, 3000, 20000)]
+STAGES["C09"].append(_sm("C09", 2000, 20000))
+
 RULES = {
+    "C09": "policy stage: newDefaultPolicy with NumCounters 2..512, population 0..12 keys (costs 1 / 1..10 / 0..100) built through "
+           "the fast path, 0..20 recorded accesses per key (round-robin, plus noise keys), MaxCost = sum + slack (0, 0..3, 0..60), "
+           "incoming (key, cost) fitting / not fitting / == MaxCost / > MaxCost / cost 0 / already resident, own access count 0..20. "
+           "Oracle (estimates snapshotted before the call): fits => admitted, no victims; every victim (first occurrences; stale "
+           "repeats ignored) was resident, was needed (newcomer did not fit yet), has estimate <= newcomer's, and is the exact minimum "
+           "when the population at the start <= lfuSample, otherwise the minimum of >= lfuSample-(i-1) distinct residents; rejection "
+           "only for cost > MaxCost, resident key, or a strictly more frequent candidate (exactly: min estimate > newcomer's for "
+           "small populations); accounting after the decision equals residents - victims (+ newcomer). Non-trivial: the decision "
+           "needed >=1 eviction or ended in an out-voted rejection, with >=2 residents and >=2 distinct estimates among them; "
+           "distinct = FNV hash of the case.",
     "C12": "seq stage: rapid state machine: initial size 0..8192; Allocate / AllocateAligned / Copy with sizes 0, 1..64, remaining-1, "
            "remaining, remaining+1, around the chunk end, 2*chunk+1, up to 1 MiB; Reset, TrimTo(m > first chunk)+Reset, and "
            "Reset+replay of the requests since the last Reset. Oracle: exact length, pairwise disjoint address intervals, every "
